@@ -301,12 +301,12 @@ Proof.
   unfold abort_notice. change MIN_ABORT_FUNCTION_CALL_OUT with 16.
   destruct (conns s !! callee) as [ccs|] eqn:Hcc.
   - destruct (N.leb_spec 16 (cs_ver ccs)) as [Hge|Hlt].
-    + unfold send_or_remove at 2. erewrite send_alive; [|cbn; exact Hcc|apply Hcallee; [reflexivity|exact Hge]].
-      cbn. rewrite Hc, Hser. unfold send_or_remove. erewrite send_alive; [|cbn; apply lookup_insert|exact Hal].
+    + erewrite send_or_remove_alive; [|cbn; exact Hcc|apply Hcallee; [reflexivity|exact Hge]].
+      cbn. rewrite Hc, Hser. erewrite send_or_remove_alive; [|cbn; apply lookup_insert|exact Hal].
       cbn. rewrite settle_idle by reflexivity. reflexivity.
-    + cbn. rewrite Hc, Hser. unfold send_or_remove. erewrite send_alive; [|cbn; apply lookup_insert|exact Hal].
+    + cbn. rewrite Hc, Hser. erewrite send_or_remove_alive; [|cbn; apply lookup_insert|exact Hal].
       cbn. rewrite settle_idle by reflexivity. reflexivity.
-  - cbn. rewrite Hc, Hser. unfold send_or_remove. erewrite send_alive; [|cbn; apply lookup_insert|exact Hal].
+  - cbn. rewrite Hc, Hser. erewrite send_or_remove_alive; [|cbn; apply lookup_insert|exact Hal].
     cbn. rewrite settle_idle by reflexivity. reflexivity.
 Qed.
 
